@@ -21,6 +21,23 @@ CLAIMS["C06"] = dict(
     technique="contract-based deductive verification: data-structure invariant + abstract view over ghost stream positions, quantified array invariants, loop invariant, modular stubs; z3 (cvc5 fallback); counterexamples replayed on the real code through a content-based native oracle",
     design_ref="DESIGN.md §2 C06",
 )
+TECH = "contract-based deductive verification: sidecar pre/postconditions, data-structure invariants, lemmas over contracts; VCs from symbolic execution of the real (shadow-loaded) source, z3 then cvc5; counterexamples replayed on the real code"
+CLAIMS["C04"] = dict(
+    text="Deductive proof, for all image/tile sizes and indices, that regular (Tiles) and variable (VariableSizedTiles) tilings are exact partitions: tile (r,c) is [o(r),o(r+1)) x [o(c),o(c+1)) with o(k)=min(k*n,N) resp. prefix sums; lemmas: tiles abut, first starts at 0, last ends at the base, non-empty; tile_shape/chunks are the region sizes; locate inverts region lookup; crop/clip_tiles give the re-based tiling (crop closed form by an induction scheme); IndexError exactly outside the tiling. GeoboxTiles indexing and N-d block assembly (BlockAssembler) are NOT decided yet.",
+    note="VariableSizedTiles.__init__ (numpy cumsum in int32) is an ASSUMED contract with a BOUNDED native check; numpy searchsorted/diff/min/max enter through stated library models; clip_tiles for selections of 1-3 tiles",
+    technique=TECH, design_ref="DESIGN.md §2 C04")
+CLAIMS["C08"] = dict(
+    text="Deductive proof over the reals that GeoBox.from_bbox (resolution-driven: every anchor spelling x tight x sign of each resolution component; shape-driven: every anchor x tight) has exactly the requested pixel size/orientation or shape, covers the region up to tol, exceeds it by < 1 pixel (+tol) per side, has its pixel edges at the anchor fraction, and is not moved at all when snapping is off; from_geopolygon with the deprecated align=. Stated in pixel units so every VC is linear.",
+    note="floats are reals (A1); the zero-span region corner case gets exactly one pixel (<= instead of <); reprojection inside from_geopolygon(crs=...) is pyproj's and not decided",
+    technique=TECH, design_ref="DESIGN.md §2 C08")
+CLAIMS["C14"] = dict(
+    text="Deductive proof for all tile shapes, resolutions of either sign, origins, flips and indices: Bin1D lemmas (bins are [o+i*d*sz,+sz), neighbours share their edge, lookup inverts indexing, rebuild from a sample bin), GridSpec constructor invariant, a tile's GeoBox has exactly the footprint xbin[ix] x ybin[iy] and the specified shape/resolution, pt2idx containment, idx_bounds <=> bins met by the shrunk query (ghost index), rebuild from any sample tile, web_tiles = slippy-map extents with 2**z tiles per side.",
+    note="tiles()/tiles_from_geopolygon (range loops + shapely filter) only by a BOUNDED native check against brute force; polygon reprojection not decided; geom.box is an assumed contract; exactness of shared edges is in the reals (A1)",
+    technique=TECH, design_ref="DESIGN.md §2 C14")
+CLAIMS["C16"] = dict(
+    text="Deductive proof: bounding-box union/intersection are component-wise min/max with CRS check and obey the lattice laws (lemma); pixel_translation returns the exact shift for any invertible base grid and rejects other CRS / non-unit linear part; bounding_box_in_pixel_domain gives the integer pixel rectangle and rejects sub-pixel offsets beyond tol; union/intersection of 1-3 GeoBoxes on a common grid are the bounding/shared pixel rectangle (empty -> zero-size GeoBox) placed at base*T(corner); overlap_roi indexes exactly the shared pixels within self; snap_to moves by <= 1/2 pixel onto the other grid; translate_pix.",
+    note="polynomial identities over the six affine coefficients (NRA); numpy.isclose thresholds taken from the code; GeoBox.enclosing (shapely/pyproj projection of the region) is NOT decided; commutativity/associativity of GeoBox |,& follow from the min/max form of the pixel rectangles (not a separate machine-checked lemma)",
+    technique=TECH, design_ref="DESIGN.md §2 C16")
 NA = {
     "C09": "xarray object-model behaviour (coords/attrs/encoding propagation); no contract within reach can state it - see DESIGN.md C09",
     "C13": "equality of GDAL warps (whole vs chunked) and dask scheduling; no contract within reach - see DESIGN.md C13",
